@@ -236,11 +236,11 @@ Definition of_cres (r : cres) : sx :=
 
 Definition u_condorcet_winner (a : sx) : sx :=
   match as_pvotes a with Some v => ok (L (map of_pos (condorcet_winner v))) | None => bad_input end.
-(* args: (ties votes) *)
+(* args: (ties votes); ties = 1: SmithSet (_smith_schwartz_set), ties = 0: SchwartzSet (_schwartz_set, the repaired routine) *)
 Definition u_smith_schwartz (a : sx) : sx :=
   match a with
   | L [t; v] => match as_bool t, as_pvotes v with
-                | Some t, Some v => ok (L (map of_pos (smith_schwartz v t)))
+                | Some t, Some v => ok (L (map of_pos (if t then smith_schwartz v true else schwartz_set v)))
                 | _, _ => bad_input end
   | _ => bad_input
   end.
